@@ -30,6 +30,8 @@ func ScratchPrograms(id, tier string, seed int) []Program {
 	switch id {
 	case "C07":
 		return ValuePrograms(tier, seed)
+	case "C08":
+		return DerivePrograms(tier, seed)
 	}
 	return nil
 }
